@@ -3,6 +3,8 @@ import json, os
 F = "src/soplex/spxlpbase_real.hpp"
 def S(as_, sig, must): return {"as": as_, "file": F, "sig": sig, "must_contain": must}
 S_rhs = S("MPSgetRHS.inc", r"static\s+R\s+MPSgetRHS\s*\(\s*R\s+left\s*,\s*R\s+right\s*\)", [r"left\s*>\s*R\(-infinity\)", r"right\s*<\s*R\(infinity\)"])
+S_rhs_rat = {"as": "MPSgetRHS_rat.inc", "file": "src/soplex/spxlpbase_rational.hpp", "sig": r"static\s+Rational\s+MPSgetRHS\s*\(\s*Rational\s+left\s*,\s*Rational\s+right\s*\)",
+             "must_contain": [r"double\(left\)\s*>\s*-double\(infinity\)", r"double\(right\)\s*<\s*double\(infinity\)"]}
 S_row = S("LPFwriteRow.inc", r"static\s+void\s+LPFwriteRow\s*\(\s*const\s+SPxLPBase<R>&\s+p_lp,[^)]*const\s+SVectorBase<R>&\s+p_svec,[^)]*const\s+R&\s+p_lhs,[^)]*const\s+R&\s+p_rhs[^)]*\)",
           [r"LPFwriteSVector\(p_lp,\s*p_output,\s*p_cnames,\s*p_svec\);", r'p_output\s*<<\s*" = "\s*<<\s*p_rhs', r'p_output\s*<<\s*" <= "\s*<<\s*p_rhs', r'p_output\s*<<\s*" >= "\s*<<\s*p_lhs'])
 S_rows = S("LPFwriteRows.inc", r"static\s+void\s+LPFwriteRows\s*\(\s*const\s+SPxLPBase<R>&\s+p_lp,[^)]*std::ostream&\s+p_output,[^)]*const\s+NameSet\*\s+p_rnames,[^)]*const\s+NameSet\*\s+p_cnames[^)]*\)",
@@ -23,7 +25,7 @@ doc = {
  "property": ["C12"],
  "desc": "LP-format row writer (relation token and number denote exactly the row's sides; ranged rows are split into two rows whose intersection is the row) and MPSgetRHS",
  "rmode": "double (IEEE, bit-precise; only comparisons and copies occur)",
- "defines": {"VCAP": "8"},
+ "defines": {"VCAP": "8", "RAT_INF": "4503599627370496LL"},
  "flags": ["--bounds-check", "--pointer-check"],
  "timeout_s": 120,
  "constants": [{"name": "VERIF_SOPLEX_INFINITY", "file": "src/soplex/spxdefines.h", "regex": r"typedef\s+double\s+Real;.*?#define\s+SOPLEX_DEFAULT_INFINITY\s+([0-9.eE+]+)\s"}],
@@ -37,12 +39,19 @@ doc = {
   "LPFwriteSVector (coefficient list) and LPFgetRowName are stubs (one event / a marker name); LPFwriteRows is proved against a recorder standing for LPFwriteRow that checks LPFwriteRow's precondition (row not ranged) at every call",
   "what a written row denotes when read back (= v: [v,v]; <= v: [-inf,v]; >= v: [v,+inf]) is the specification, taken from the LP file format",
   "SPxLPBase is a stub over two side arrays and an array of row-vector tags; at most VCAP = 8 rows (object-size cap; the loop proof is inductive)",
+  "MPSgetRHS_rat: Rational is a struct over long long (the body only copies and compares double(x) with +-double(infinity)); operator double() is the monotone map exact below the sentinel RAT_INF = 2^52 and +-infinity from there on (a long long cannot reach the 1e100 threshold the code uses)",
   "sides are assumed not NaN; `infinity` is extracted from the tree; assert() compiled out; `throw` calls verif_throw() (allowed only for a free row in MPSgetRHS)",
  ],
  "instances": [
   inst("MPSgetRHS", "MPSgetRHS<R>(R left, R right)  [spxlpbase_real.hpp]", [S_rhs], [], [
      {"name": "prefers_right", "slice": "MPSgetRHS.inc", "find": "rhsval = left;", "replace": "rhsval = right;"},
      {"name": "infinite_left_taken", "slice": "MPSgetRHS.inc", "find": "if(left > R(-infinity))", "replace": "if(left >= R(-infinity))"}], 5),
+  dict(inst("MPSgetRHS_rat", "MPSgetRHS(Rational left, Rational right)  [spxlpbase_rational.hpp]", [S_rhs_rat], [], [
+     {"name": "branches_swapped", "slice": "MPSgetRHS_rat.inc", "regex": True,
+      "find": r"if\(double\(left\) > -double\(infinity\)\)(\s*///[^\n]*)?\n\s*rhsval = left;\n\s*else if\(double\(right\) <  double\(infinity\)\)\n\s*rhsval = right;",
+      "replace": "if(double(right) <  double(infinity))\n      rhsval = right;\n   else if(double(left) > -double(infinity))\n      rhsval = left;"},
+     {"name": "prefers_right", "slice": "MPSgetRHS_rat.inc", "find": "rhsval = left;", "replace": "rhsval = right;"}], 5),
+       rmode="Rational = ordered-group long long; double(x) is the monotone map that is exact below the sentinel RAT_INF = 2^52 and +-infinity from there on"),
   inst("LPFwriteRow", "LPFwriteRow<R>(p_lp, p_output, p_cnames, p_svec, p_lhs, p_rhs)  [spxlpbase_real.hpp]", [S_row], [], [
      {"name": "ge_writes_rhs", "slice": "LPFwriteRow.inc", "find": 'p_output << " >= " << p_lhs;', "replace": 'p_output << " >= " << p_rhs;'},
      {"name": "le_ge_swapped", "slice": "LPFwriteRow.inc", "find": 'p_output << " <= " << p_rhs;', "replace": 'p_output << " >= " << p_rhs;'},
